@@ -70,3 +70,19 @@ pub fn read(pass: Pass) -> u64 {
 pub fn set_limit(limit: u64) {
     LIMIT.with(|c| c.set(limit));
 }
+
+/// Break the reference cycles of a graph so that its memory is released when it is dropped.
+///
+/// Nodes and functions refer to each other through `Rc`s; a long-running monitor that analyses
+/// many programs in one process would otherwise keep every graph alive.
+pub fn dispose(cfg: &crate::cfg::Cfg) {
+    for func in cfg.functions().values() {
+        #[allow(unused_must_use)]
+        {
+            func.set_nodes(Vec::new());
+        }
+    }
+    for node in cfg.nodes() {
+        node.verif_dispose();
+    }
+}
